@@ -63,3 +63,21 @@ TECHNIQUE = {
     'C13': 'property-based testing (rapidcheck) with shape-invariant oracle + bounded-exhaustive enumeration',
     'C14': 'property-based testing (rapidcheck) with destroy-log oracle under ASan + bounded-exhaustive enumeration',
 }
+
+# ---- C15 ---------------------------------------------------------------------------------------
+harness('htlist', 'engines/seq/htlist.cpp', 'gcc-asan')
+reg(Prop('C15', 'exploration', [
+    Sub('rand', 'htlist', shards=(16, 16), cases=(1500, 40000), maxsize=(150, 400)),
+], rule='rapidcheck op sequences on PHashTable (insert/overwrite/remove/lookup/keys/values/lookup_by_value/free) and PList (append/prepend/remove/reverse/last/length/foreach/free); '
+        'keys and values are pointer-sized bit patterns from 10 classes (NULL, all-ones, small, negative, low word INT_MAX-40..INT_MAX, high-word-only differences, '
+        'same-bucket families base+101*j, random 64-bit, INT_MAX-adjacent with high word, INT_MIN/UINT_MAX-adjacent). Oracle: std::map / std::vector, listings compared as multisets, '
+        'UBSan/ASan no-recover. Non-trivial = hash-table sequence with a removal from the middle of a chain of >=3 in one bucket or a key from the INT_MAX-adjacent classes; '
+        'list sequence with a removal of a duplicated value and a reverse of a list of >=2. distinct = distinct case text.',
+    assumptions=['keys/values are never dereferenced by the library (pointer identity) - generated as raw bit patterns',
+                 'a stored value equal to the not-found marker (-1) is indistinguishable from absent by contract; the model returns the marker in both cases',
+                 'gcc -O1 ASan+UBSan build'],
+    corpus_harness='htlist', design_ref='4/C15'))
+ENGINES[0]['serves_properties'].append('C15')
+LEVEL_TEXT['C15'] = 'Generated operation sequences on hash table and list compared with std::map / std::vector after every mutating command; UBSan makes undefined behaviour for any key bit pattern a failure.'
+LEVEL_NOTE['C15'] = 'Trusted: std containers as reference, UBSan/ASan instrumentation of phashtable.c/plist.c. Listing order is unspecified and compared as multiset.'
+TECHNIQUE['C15'] = 'property-based testing (rapidcheck, model-based) under UBSan/ASan'
